@@ -47,8 +47,8 @@ def _verify_one(args):
         return key, None, {}, traceback.format_exc()
 
 
-LARGE_IN_QUICK = {"C01", "C02", "C03", "C04", "C05", "C08", "C09", "C12",
-                  "C14", "C18", "C19", "C20"}
+LARGE_IN_QUICK = {"C01", "C02", "C03", "C04", "C05", "C08", "C09", "C10", "C11",
+                  "C12", "C13", "C14", "C15", "C16", "C17", "C18", "C19", "C20"}
 
 
 def run_standin(name: str, tier: str, seed: int, hints: List[dict]) -> dict:
